@@ -27,7 +27,7 @@ LEVEL = "fault_enumeration"
 ENGINE = "sansio+vloop"
 BUDGET = {"quick": (400, 20), "thorough": (20000, 240)}
 WORKERS = {"quick": 4, "thorough": 16}
-REQUIRED = ["handler.cases", "handler.connect_pending_long", "h2.cases", "h2.fault.connect_refused", "order", "final", "fault.client_cut", "fault.server_cut", "fault.connect_refused", "policy.kill", "policy.kill_in_transit", "policy.set_response", "policy.stream"]
+REQUIRED = ["handler.cases", "handler.connect_pending_long", "h2.cases", "h2.fault.connect_refused", "order", "final", "fault.client_cut", "fault.server_cut", "fault.connect_refused", "policy.kill", "policy.kill_in_transit", "ws_handshake_refused_cases", "policy.set_response", "policy.stream"]
 TECHNIQUE = "runtime monitoring: fault-position sweep on the sans-io driver + per-flow hook-order automaton"
 RULE = (
     "case = (spec of 1-3 HTTP/1 requests, fault kind and position, per-hook addon action vector, option toggles); quick samples offsets, "
@@ -298,6 +298,15 @@ def run(ctx):
             spec = h1case.build_spec(r, n=r.choice([1, 1, 2, 3]), hostile_p=0.3, resp_hostile_p=0.3, policy_kinds=("pass",))
             spec["allow_extra_after"] = True
             spec["allow_1xx"] = False
+            if r.random() < 0.15:
+                # a WebSocket handshake that the origin answers with a final non-101 response that still names the protocol
+                # (426 Upgrade Required, 400, 200 ...): not an upgrade, so the flow has to end like any other (seed C03-6)
+                q = r.choice(spec["reqs"])
+                head, sep, rest = q["raw"].partition(b"\r\n\r\n")
+                if sep and not q["ambiguous"] and q["method"] == "GET":
+                    q["raw"] = head + b"\r\nConnection: Upgrade\r\nUpgrade: websocket\r\nSec-WebSocket-Version: 13\r\nSec-WebSocket-Key: dGhlIHNhbXBsZSBub25jZQ==" + sep + rest
+                    spec["ws_refused"] = {q["tag"]}
+                    ctx.count("ws_handshake_refused_cases")
             stream = b"".join(q["raw"] for q in spec["reqs"])
             optset = r.choice([{}, {}, {"body_size_limit": r.choice(["10", "100", "1k"])}, {"stream_large_bodies": r.choice(["5", "50", "1k"])}, {"stream_large_bodies": "20", "store_streamed_bodies": True}])
             opts.update(**{**defaults, **optset})
